@@ -53,6 +53,7 @@ def _vol(d3: np.ndarray) -> List[int]:
 
 class A(Adapter):
     name = "BinPack"
+    run_scale = 1
     mask_mode = "joint"
     terminate_on_invalid = True
     fork_every = 4
@@ -64,7 +65,8 @@ class A(Adapter):
     def configs(self):
         return [
             cfg("rand20e40", True, gen="random", items=20, ems=40, obs=40, norm=True, rew="dense"),
-            cfg("rand5e10o6raw", True, gen="random", items=5, ems=10, obs=6, norm=False, rew="sparse"),
+            cfg("rand12e30o6raw", True, gen="random", items=12, ems=30, obs=6, norm=False, rew="sparse"),
+            cfg("rand5e10o6raw", gen="random", items=5, ems=10, obs=6, norm=False, rew="sparse"),
             cfg("toy", gen="toy", items=20, ems=60, obs=40, norm=True, rew="dense"),
             cfg("rand10e25o25", gen="random", items=10, ems=25, obs=25, norm=True, rew="sparse"),
             cfg("csv", gen="csv", items=10, ems=20, obs=12, norm=False, rew="dense"),
